@@ -59,23 +59,38 @@ def showRes : Res (List Rec) → String
   | .panic _ => "panic"
   | .ok rs => showRecs rs
 
-/-- `S P M I K E F W D X | entries…` -/
+/-- `Yl<hex link path>:<hex target>,…`: the symbolic links of the tree -/
+def linksArg (s : String) : Option (List (List Bytes × Bytes)) :=
+  let t := (s.drop 1).toString
+  if t = "" then some []
+  else (splitList t ",").mapM fun (e : String) =>
+    match (e.drop 1).toString.splitOn ":" with
+    | [p, tgt] => do pure (canonComps (← fromHex p), (← fromHex tgt))
+    | _ => none
+
+def parseCfgL (s p m i k e f w d x : String) (links : List (List Bytes × Bytes)) (entries : List String) :
+    Option (Cfg × FS × List (Bytes × Cov)) := do
+  let sourceDir ← optArg s
+  let prefixDir ← optArg p
+  let mapping ← mappingArg m
+  let ignore ← (← argList i).mapM Glob.parse
+  let keep ← (← argList k).mapM Glob.parse
+  let ignoreNotExisting ← if e = "E1" then some true else if e = "E0" then some false else none
+  let filter ← if f = "Fn" then some none else if f = "Ft" then some (some true)
+               else if f = "Ff" then some (some false) else none
+  let cwd ← arg w
+  let dirs ← argList d
+  let files ← argList x
+  let es ← parseEntries entries
+  pure ({ sourceDir, prefixDir, mapping, ignore, keep, ignoreNotExisting, filter },
+        { files := files.map canonComps, dirs := dirs.map canonComps, cwd := canonComps cwd, links }, es)
+
+/-- `S P M I K E F W D X [Y] | entries` (`Y`: the link table, absent = no links) -/
 def parseCfg : List String → Option (Cfg × FS × List (Bytes × Cov))
-  | s :: p :: m :: i :: k :: e :: f :: w :: d :: x :: "|" :: entries => do
-    let sourceDir ← optArg s
-    let prefixDir ← optArg p
-    let mapping ← mappingArg m
-    let ignore ← (← argList i).mapM Glob.parse
-    let keep ← (← argList k).mapM Glob.parse
-    let ignoreNotExisting ← if e = "E1" then some true else if e = "E0" then some false else none
-    let filter ← if f = "Fn" then some none else if f = "Ft" then some (some true)
-                 else if f = "Ff" then some (some false) else none
-    let cwd ← arg w
-    let dirs ← argList d
-    let files ← argList x
-    let es ← parseEntries entries
-    pure ({ sourceDir, prefixDir, mapping, ignore, keep, ignoreNotExisting, filter },
-          { files := files.map canonComps, dirs := dirs.map canonComps, cwd := canonComps cwd }, es)
+  | s :: p :: m :: i :: k :: e :: f :: w :: d :: x :: "|" :: entries =>
+    parseCfgL s p m i k e f w d x [] entries
+  | s :: p :: m :: i :: k :: e :: f :: w :: d :: x :: y :: "|" :: entries => do
+    parseCfgL s p m i k e f w d x (← linksArg y) entries
   | _ => none
 
 def handle : List String → String
